@@ -119,6 +119,7 @@ def valid (lenient : Bool) : S → J → Bool
   | .strNum _, j => match j with | .str _ => true | _ => false        -- `format` is an annotation: any string is valid
   | .strFloat _, j => match j with | .str _ => true | _ => false
   | .strBytes, j => match j with | .str _ => true | _ => false
+  | .single v, j => j.scalarEq (.str v)
   | .obj ps addl, j => match j with
     | .obj kvs => validProps lenient ps kvs && validAddl lenient addl (restOf ps.names kvs)
     | _ => false
@@ -153,6 +154,7 @@ def same : S → J → J → Bool
   | .strNum _, a, b => a.scalarEq b
   | .strFloat _, a, b => a.scalarEq b
   | .strBytes, a, b => a.scalarEq b
+  | .single _, a, b => a.scalarEq b
   | .obj ps addl, a, b => match a, b with
     | .obj xs, .obj ys =>
       sameProps ps xs ys && sameAddl addl (restOf ps.names xs) ys &&
@@ -194,7 +196,7 @@ def judge (s : S) (t : Ty) (doc : J) : Bool := judgeRun s doc (rt t doc)
 inductive Known
   | nonStringEnum | enumAliasMerged | renamedDup | numericWidth
   | requiredNullDropped | requiredNullableMissing | containerDefault | structFromSeq
-  | stringNumericFormat | stringByteFormat
+  | stringNumericFormat | stringByteFormat | singleValueEnum
   deriving DecidableEq, Repr
 
 def Known.name : Known → String
@@ -203,6 +205,7 @@ def Known.name : Known → String
   | .requiredNullDropped => "KnownRequiredNullDropped" | .requiredNullableMissing => "KnownRequiredNullableMissing"
   | .containerDefault => "KnownContainerDefault" | .structFromSeq => "KnownStructFromSeq"
   | .stringNumericFormat => "KnownStringNumericFormat" | .stringByteFormat => "KnownStringByteFormat"
+  | .singleValueEnum => "KnownSingleValueEnumIsString"
 
 def isStr : J → Bool
   | .str _ => true
@@ -238,6 +241,8 @@ def classes (fname : Str → Str) (vname : J → Str) : S → J → List Known
   | .strFloat _, j => match j with | .str _ => [.stringNumericFormat] | .num _ _ => [.stringNumericFormat] | _ => []
   -- the member is a `Vec<u8>`: every (base64) string is refused, an array of small integers is read
   | .strBytes, j => match j with | .str _ => [.stringByteFormat] | .arr _ => [.stringByteFormat] | _ => []
+  -- the member is a `String`: every other string is read
+  | .single v, j => match j with | .str s => if s == v then [] else [.singleValueEnum] | _ => []
   | .obj ps addl, j => match j with
     | .obj kvs => classesProps fname vname ps [] ps.anyDefault kvs ++ classesAddl fname vname addl (restOf ps.names kvs)
     | .arr _ => (match addl with | .typed _ => [] | _ => [.structFromSeq])
